@@ -7,21 +7,23 @@ From LasV Require Import Lib.Base Gen.GenCursor Gen.GenOwnership Model.Ownership
 Import ListNotations.
 Open Scope Z_scope.
 
-(* Every history of events on a fresh stream (seekable or not): sessions in mode r/w/a with closefd true/false, opening
+(* Every history of events on a stream (seekable or not) that stands anywhere when laspy first gets it: sessions in mode r/w/a with closefd true/false, opening
    that succeeds or fails with a LaspyException or with another exception (empty source, bad signature, truncated header,
    undecodable VLR, incompatible header, non-seekable stream for append), reads/seeks/full reads that do or do not create
-   the point source (the real one or the empty-file one), exceptions in the with-body, explicit close, LasData.write,
-   laspy.read, several sessions one after the other. Each time laspy lets go of a stream that was open when it got it,
+   the point source (the real one or the empty-file one) or that FAIL after a successful open (a point area that ends
+   inside a record, EVLRs left for read() that cannot be decoded), exceptions in the with-body, explicit close,
+   LasData.write, laspy.read (whose read() may fail after its open succeeded), several sessions one after the other, the
+   caller moving the stream in between. Each time laspy lets go of a stream that was open when it got it,
    the stream is closed iff the caller said closefd (obs_ok; for LasData.write the "closefd" is false).
    The single exit excluded by obs_ok is HPrecondition — mode w asserting that the destination is seekable BEFORE its
    try block — which is not among the failures the property lists (invalid content, unusable header); what happens there
    is C18_w_nonseekable_untouched. *)
-Theorem C18_iff : forall seekable evs, Forall obs_ok (st_log (run (init seekable) evs)).
+Theorem C18_iff : forall seekable p evs, Forall obs_ok (st_log (run (init_at seekable p) evs)).
 Proof. exact ownership_iff. Qed.
 Print Assumptions C18_iff.
 
 (* the same, as the boolean the extracted model evaluates during the correspondence runs *)
-Theorem C18_iff_bool : forall seekable evs, forallb obs_okb (st_log (run (init seekable) evs)) = true.
+Theorem C18_iff_bool : forall seekable p evs, forallb obs_okb (st_log (run (init_at seekable p) evs)) = true.
 Proof. exact ownership_iff_b. Qed.
 Print Assumptions C18_iff_bool.
 
@@ -33,12 +35,13 @@ Theorem C18_failed_open : forall t m cf re f o x, st_h t = None -> s_closed (st_
 Proof. exact failed_open. Qed.
 Print Assumptions C18_failed_open.
 
-(* which opens fail and which give a handle: the handle carries the caller's closefd, has no point source yet, and the
+(* which opens fail (open_exn: the content or the header is what it is - or, for a reader that loads the EVLRs while
+   opening, these cannot be decoded) and which give a handle: the handle carries the caller's closefd, has no point source yet, and the
    stream is still open *)
 Theorem C18_open_outcome : forall t m cf re f o, st_h t = None -> s_closed (st_s t) = false ->
   (gen_open_pre_assert_seekable m = true -> s_seekable (st_s t) = true) ->
   (is_a m = true -> s_seekable (st_s t) = true) ->
-  match fail_exn m o with
+  match open_exn m o f re (s_seekable (st_s t)) with
   | Some x => snd (step t (EOpen m cf re f o)) = RRaised x
   | None => snd (step t (EOpen m cf re f o)) = RDone /\
             exists h, st_h (fst (step t (EOpen m cf re f o))) = Some h /\ h_mode h = m /\ h_closefd h = cf /\ h_ps h = PNone /\
@@ -49,9 +52,9 @@ Print Assumptions C18_open_outcome.
 
 (* normal exit, explicit close, exception in the with-body, after any history (point source created or not, by a read,
    a seek, read() on an empty file with deferred EVLRs, or direct access): closed iff closefd, and the handle is gone *)
-Theorem C18_handle_gone : forall seekable evs e h, is_end e = true -> st_h (run (init seekable) evs) = Some h ->
-  st_h (fst (step (run (init seekable) evs) e)) = None /\
-  s_closed (st_s (fst (step (run (init seekable) evs) e))) = h_declared h /\ h_closefd h = h_declared h.
+Theorem C18_handle_gone : forall seekable p evs e h, is_end e = true -> st_h (run (init_at seekable p) evs) = Some h ->
+  st_h (fst (step (run (init_at seekable p) evs) e)) = None /\
+  s_closed (st_s (fst (step (run (init_at seekable p) evs) e))) = h_declared h /\ h_closefd h = h_declared h.
 Proof. exact handle_gone. Qed.
 Print Assumptions C18_handle_gone.
 
@@ -61,30 +64,64 @@ Theorem C18_write_keeps_open : forall t o,
 Proof. exact write_keeps_open. Qed.
 Print Assumptions C18_write_keeps_open.
 
-(* laspy.read(stream, closefd): closed iff closefd whether reading succeeds or opening fails *)
-Theorem C18_read_las : forall seekable evs cf f o,
-  st_h (run (init seekable) evs) = None -> s_closed (st_s (run (init seekable) evs)) = false ->
-  st_h (fst (step (run (init seekable) evs) (EReadLas cf f o))) = None /\
-  s_closed (st_s (fst (step (run (init seekable) evs) (EReadLas cf f o)))) = cf.
+(* laspy.read(stream, closefd): closed iff closefd whether reading succeeds, opening fails, or read() fails after the
+   open succeeded (any f: torn point area, undecodable EVLRs left for read()) *)
+Theorem C18_read_las : forall seekable p evs cf f o,
+  st_h (run (init_at seekable p) evs) = None -> s_closed (st_s (run (init_at seekable p) evs)) = false ->
+  st_h (fst (step (run (init_at seekable p) evs) (EReadLas cf f o))) = None /\
+  s_closed (st_s (fst (step (run (init_at seekable p) evs) (EReadLas cf f o)))) = cf.
 Proof. exact read_las_closes. Qed.
 Print Assumptions C18_read_las.
 
-(* after a successful open for reading the stream stands at offset_to_point_data (relative to where the file started),
+(* after a successful open for reading the stream stands at the first point record: offset_to_point_data bytes after
+   the position it had when it was handed over (wherever that is: the content need not start at byte 0 of the stream),
    with or without EVLR preloading, with or without EVLRs, seekable or not *)
-Theorem C18_position : forall t cf re f, st_h t = None -> s_closed (st_s t) = false ->
+Theorem C18_position : forall t cf re f o, st_h t = None -> s_closed (st_s t) = false ->
   227 <= f_offset f -> s_pos (st_s t) + f_offset f <= f_size f ->
-  s_pos (st_s (fst (step t (EOpen MR cf re f OOk)))) = s_pos (st_s t) + f_offset f.
+  snd (step t (EOpen MR cf re f o)) = RDone ->
+  s_pos (st_s (fst (step t (EOpen MR cf re f o)))) = s_pos (st_s t) + f_offset f.
 Proof. exact open_position. Qed.
 Print Assumptions C18_position.
 
-(* ... so that points are consumed without seeking: the first read_points(n) ends right after its k records *)
-Theorem C18_points_follow : forall t h n, st_h t = Some h -> h_mode h = MR -> h_ps h = PNone -> h_read h = 0 ->
+Theorem C18_open_succeeds : forall t cf re f, st_h t = None -> s_closed (st_s t) = false -> f_evlr_bad f = false ->
+  snd (step t (EOpen MR cf re f OOk)) = RDone.
+Proof. exact open_ok_succeeds. Qed.
+Print Assumptions C18_open_succeeds.
+
+(* ... so that points are consumed without seeking: the first read_points(n) succeeds and ends right after its k
+   records (base = where the content starts in the stream) *)
+Theorem C18_points_follow : forall t h n base, st_h t = Some h -> h_mode h = MR -> h_ps h = PNone -> h_read h = 0 ->
   let f := h_file h in
-  s_pos (st_s t) = f_offset f -> 0 < f_count f -> 0 <= f_psize f -> f_offset f + f_count f * f_psize f <= f_size f ->
+  s_pos (st_s t) = base + f_offset f -> 0 < f_count f -> 0 <= f_psize f -> base + f_offset f + f_count f * f_psize f <= f_size f ->
   let k := if n <? 0 then f_count f else Z.min n (f_count f) in
-  s_pos (st_s (fst (step t (EReadPoints n)))) = f_offset f + k * f_psize f.
+  snd (step t (EReadPoints n)) = RDone /\
+  s_pos (st_s (fst (step t (EReadPoints n)))) = base + f_offset f + k * f_psize f.
 Proof. exact points_follow. Qed.
 Print Assumptions C18_points_follow.
+
+(* failures after a successful open. A point area that ends inside a record: read() / read_points(-1) raise and the
+   stream stays open (the handle is still there; C18_handle_gone / C18_read_las say what its end does) *)
+Theorem C18_torn_points_raise : forall t h base, st_h t = Some h -> h_mode h = MR -> h_ps h = PNone -> h_read h = 0 ->
+  let f := h_file h in
+  s_pos (st_s t) = base + f_offset f -> 0 < f_count f -> 0 < f_psize f ->
+  base + f_offset f <= f_size f < base + f_offset f + f_count f * f_psize f ->
+  (f_size f - (base + f_offset f)) mod f_psize f <> 0 ->
+  snd (step t EReadAll) = RRaised XOther /\ snd (step t (EReadPoints (-1))) = RRaised XOther
+  /\ s_closed (st_s (fst (step t EReadAll))) = s_closed (st_s t).
+Proof. exact torn_points_raise. Qed.
+Print Assumptions C18_torn_points_raise.
+
+(* EVLRs that cannot be decoded fail where they are loaded: at opening (closed iff closefd) when asked for on a stream
+   that can seek, in read() - once the points are read - otherwise *)
+Theorem C18_bad_evlrs_fail_where_loaded : forall t cf re f, st_h t = None -> s_closed (st_s t) = false ->
+  f_evlr_bad f = true -> 4 <= f_minor f -> 0 < f_nevlrs f ->
+  let r := step t (EOpen MR cf re f OOk) in
+  if re && s_seekable (st_s t)
+  then snd r = RRaised XOther /\ st_h (fst r) = None /\ s_closed (st_s (fst r)) = cf
+  else snd r = RDone /\ exists h, st_h (fst r) = Some h /\ h_pending_evlrs h = true /\
+       forall s, snd (do_read_all (set_ps (set_read h (f_count f)) (PReal true)) s) = RRaised XOther.
+Proof. exact bad_evlrs_fail_where_loaded. Qed.
+Print Assumptions C18_bad_evlrs_fail_where_loaded.
 
 (* the exit C18_iff leaves out: mode w on a non-seekable destination is refused before the try; the stream is untouched *)
 Theorem C18_w_nonseekable_untouched : forall t m cf re f o, st_h t = None ->
@@ -102,17 +139,23 @@ Print Assumptions C18_skeleton_shapes.
 
 (* an empty 1.4 file with one EVLR, opened without preloading on a seekable stream with closefd: read() creates the
    empty-file point reader and the close is delegated to it; then a second stream: failing append (bad VLR, non-Laspy
-   exception) with closefd, and a reader with closefd=false that reads, is closed explicitly, LasData.write, laspy.read *)
+   exception) with closefd, and a reader with closefd=false that reads, is closed explicitly, LasData.write, laspy.read;
+   a non-seekable stream handed over at byte 64 whose last record is cut: open leaves it at 64 + 227, read() raises,
+   the stream stays open (closefd=false); laspy.read with closefd on what is left (nothing) fails and closes *)
 Example C18_nonvacuous :
-  let f0 := mkF 375 0 30 4 1 375 100 475 in
-  let f1 := mkF 227 5 20 2 0 0 0 327 in
+  let f0 := mkF 375 0 30 4 1 375 100 475 false in
+  let f1 := mkF 227 5 20 2 0 0 0 327 false in
+  let f2 := mkF 227 5 20 2 0 0 0 (64 + 310) false in     (* 64 bytes of something else first; the last record is cut *)
   (map (fun '(r, t) => (r, s_closed (st_s t), s_pos (st_s t), match st_h t with Some h => Some (h_ps h) | None => None end))
        (trace (init true) [EOpen MR true false f0 OOk; EReadAll; EExit; EOpen MR true true f0 OOk]),
    map (fun '(r, t) => (r, s_closed (st_s t), s_pos (st_s t)))
        (trace (init true) [EOpen MA true true f1 OBadVlr]),
    map (fun '(r, t) => (r, s_closed (st_s t), s_pos (st_s t)))
-       (trace (init true) [EOpen MR false true f1 OOk; EReadPoints 2; ESeek 4 0; EClose; ELasDataWrite OOk; ERewind; EReadLas true f1 OOk]))
+       (trace (init true) [EOpen MR false true f1 OOk; EReadPoints 2; ESeek 4 0; EClose; ELasDataWrite OOk; ERewind 0; EReadLas true f1 OOk]),
+   map (fun '(r, t) => (r, s_closed (st_s t), s_pos (st_s t)))
+       (trace (init_at false 64) [EOpen MR false true f2 OOk; EReadPoints 2; EReadAll; EExit; EReadLas true f2 OEmpty]))
   = ([(RDone, false, 375, Some PNone); (RDone, false, 375, Some (PNull true)); (RDone, true, 375, None); (RRaised XOther, true, 375, None)],
      [(RRaised XOther, true, 0)],
-     [(RDone, false, 227); (RDone, false, 267); (RDone, false, 307); (RDone, false, 307); (RDone, false, 307); (RDone, false, 0); (RDone, true, 327)]).
+     [(RDone, false, 227); (RDone, false, 267); (RDone, false, 307); (RDone, false, 307); (RDone, false, 307); (RDone, false, 0); (RDone, true, 327)],
+     [(RDone, false, 291); (RDone, false, 331); (RRaised XOther, false, 374); (RDone, false, 374); (RRaised XLaspy, true, 374)]).
 Proof. vm_compute. reflexivity. Qed.
